@@ -101,6 +101,9 @@ def sources(tier, seed):
                 continue
             out.append((f"packet guard: packetSize {op} {n}, access to the "
                         "last byte it promises", "guard", (op, n)))
+    for k in range(2):
+        out.append((f"block ending in exit() followed by its Else branch "
+                    f"({k})", "exit_else", k))
     for name in ("AnalogInput", "AnalogOutput", "DigitalInput",
                  "DigitalOutput", "RandomOutput", "Counter",
                  "RandomDropper", "Motor0", "Motor1", "Motor2", "several"):
@@ -239,6 +242,18 @@ def build(kind, arg):
         ns["program"] = program
         e, code, maps = dsl.build(ns, None, base=dsl.xdp.XDP, finish=False)
         return code, maps, 1600
+    if kind == "exit_else":
+        ns = dict(a=ebpf.LocalVar("I"), b=ebpf.LocalVar("I"))
+
+        def body(e, k=arg):
+            e.a = 7
+            with (e.a > 3 if k == 0 else e.a == 7) as Else:
+                e.r0 = 1
+                e.exit()
+            with Else:
+                e.b = 1
+        e, code, maps = dsl.build(ns, body)
+        return code, maps, None
     if kind == "device":
         return build_device(arg)
     if kind == "dispatcher":
@@ -441,6 +456,8 @@ def classify(oname, log):
                        "read of uninitialised stack"),
                       ("invalid read from stack", "read of uninitialised stack"),
                       ("BPF_ATOMIC", "atomic add on a packet pointer"),
+                      ("unreachable insn", "unreachable jump after exit in a "
+                                           "block with an Else branch"),
                       ("invalid access to map value", "map value out of bounds"),
                       ("stack", "stack")):
         if pat in t:
